@@ -213,6 +213,13 @@ impl Ctx {
         s.pick_next();
         let _s = self.sched.wait_turn(self.me, s);
     }
+    /// runs `f` with the hooks of this thread switched off (for observations that must not be scheduling points)
+    pub fn quiet<R>(&self, f: impl FnOnce() -> R) -> R {
+        reactive_mutiny::verif::participate(false);
+        let r = f();
+        reactive_mutiny::verif::participate(true);
+        r
+    }
     pub fn rand(&self, n: u64) -> u64 {
         let mut s = self.sched.m.lock().unwrap();
         xorshift(&mut s.rng) % n
